@@ -134,6 +134,7 @@ def shrink(case, still_fails):
 
 def check(run):
     import genlib
+    genlib.validate_tabulation_objects(run, kinds=("lammps",), n=run.n(8, 60))
     genlib.validate_writer(run, "lammps", n=run.n(12, 120))
     run.rule = ("tracer models generated from one PRNG (1-5 potentials, nr 3..400, dyadic cutoffs with 1..8 binary places, "
                 "5 routes incl. potable files and the potable entry point); distinct = distinct (route, nr, cutoff, labels, analytic flags); "
